@@ -206,6 +206,88 @@ example : Evals σ₀ 1 (.call (var "+") [var "x", var "y"] none) (.ok (num 12))
   .call (.sym rfl) (.cons (.sym rfl) (.cons (.sym rfl) .nil)) rfl
     (.of_loop (.builtin (by decide) rfl rfl (by simp)))
 
+/-! ## 4. internal definitions: evaluated in order in the call frame, visible to the whole body -/
+
+/-- What a run of `apply_scheme_procedure` consists of.  The call frame `ρ = σ.frames.size` is NEW
+and a child of the closure's frame `cenv` (`newFrame (some cenv)`); the fixed parameters are bound
+in it, then the rest parameter (`bindRest`); then the internal definitions are evaluated IN THAT
+FRAME, in order, each right-hand side in the store where the parameters and all earlier definitions
+are already bound in `ρ` (`DefsSeq`); only when all of them are bound does the body run, in the same
+frame — so every body expression sees every definition. -/
+theorem body_definitions_scope {σ lam cenv args rt σ'} (ρ : Nat) (hρ : ρ = σ.frames.size) :
+    AppliesScheme σ lam cenv args rt σ' ↔
+      (∃ e σ₁, bindFixed (σ.newFrame (some cenv)).2 ρ lam.formals.fixed args = (.error e, σ₁) ∧
+        rt = .error (e, none) ∧ σ' = σ₁) ∨
+      (∃ restArgs σ₁,
+        bindFixed (σ.newFrame (some cenv)).2 ρ lam.formals.fixed args = (.ok restArgs, σ₁) ∧
+        ((∃ er, DefsSeq (fun τ e r τ' => Evals τ ρ e r τ') ρ
+              (bindRest σ₁ ρ lam.formals.rest restArgs) lam.defs (.error er) σ' ∧ rt = .error er) ∨
+         (∃ σ₂, DefsSeq (fun τ e r τ' => Evals τ ρ e r τ') ρ
+              (bindRest σ₁ ρ lam.formals.rest restArgs) lam.defs (.ok ()) σ₂ ∧
+            EvalsBody σ₂ ρ lam.body rt σ'))) := by
+  subst hρ
+  simp only [← evalsDefs_iff_defsSeq]
+  constructor
+  · exact AppliesScheme.inv
+  · rintro (⟨e, σ₁, hb, rfl, rfl⟩ | ⟨restArgs, σ₁, hb, ⟨er, hd, rfl⟩ | ⟨σ₂, hd, hbody⟩⟩)
+    · exact .bind_err hb
+    · exact .defs_err hb hd
+    · exact .intro_ok hb hd hbody
+
+/-- The body proper: the expressions before the last one are evaluated in order (`MapEvals`: each
+once, values dropped, the first error ends the body), then the last one as the tail expression. -/
+theorem body_sequence {σ ρ es last rt σ'} :
+    EvalsBody σ ρ (es ++ [last]) rt σ' ↔
+      (∃ er, MapEvals (fun τ e r τ' => Evals τ ρ e r τ') σ es (.error er) σ' ∧ rt = .error er) ∨
+      (∃ vs σ₁, MapEvals (fun τ e r τ' => Evals τ ρ e r τ') σ es (.ok vs) σ₁ ∧ EvalsTail σ₁ ρ last rt σ') :=
+  evalsBody_iff
+
+/-- A `lambda` (in particular the right-hand side of an internal definition, evaluated in the call
+frame `ρ`) yields a closure that CAPTURES `ρ`: when it is called later its frame is a child of `ρ`
+(`body_definitions_scope`: `newFrame (some cenv)`), so it sees every binding `ρ` has by then —
+definitions made after its own included. -/
+theorem definition_closure_captures_frame {σ ρ lam l r σ'} :
+    Evals σ ρ (.lambda lam l) r σ' ↔ r = .ok (.closure lam ρ) ∧ σ' = σ :=
+  ⟨Evals.lambda_inv, fun ⟨h₁, h₂⟩ => h₁ ▸ h₂ ▸ Evals.lambda⟩
+
+/-- What `define ρ x v` (a parameter binding or an internal definition) changes: frame `ρ` now binds
+`x` to `v`; no other (frame, name) pair changes and no parent chain changes.  With
+`lookup_innermost` this says who sees the definition: every frame whose chain reaches `ρ` before
+another binding of `x`. -/
+theorem definition_visible {σ : Store} {ρ : Nat} (hρ : ρ < σ.frames.size) (x : String) (v : Value) :
+    (∀ y i, frameBinding (σ.define ρ x v) y i = if i = ρ ∧ y = x then some v else frameBinding σ y i) ∧
+    (∀ i, chain (σ.define ρ x v) i = chain σ i) ∧
+    (ParentsOlder σ → (σ.define ρ x v).lookup ρ x = some v) := by
+  refine ⟨frameBinding_define hρ x v, chain_define σ ρ x v, fun hpo => ?_⟩
+  rw [lookup_eq_chain (parentsOlder_define hpo ρ x v), chain_define]
+  have hc : ∃ tl, chain σ ρ = ρ :: tl := by
+    unfold chain
+    obtain ⟨k, hk⟩ : ∃ k, σ.frames.size = k + 1 := ⟨σ.frames.size - 1, by omega⟩
+    have : ∃ f, σ.frames[ρ]? = some f := ⟨σ.frames[ρ], by simp [hρ]⟩
+    obtain ⟨f, hf⟩ := this
+    rw [hk, chainAux, hf]; exact ⟨_, rfl⟩
+  obtain ⟨tl, hc⟩ := hc
+  rw [hc, List.findSome?_cons, frameBinding_define hρ]; simp
+
+/-- mutual reference between internal definitions:
+`((lambda () (define (f) (g)) (define (g) 42) (f)))` — `f`'s closure captures the call frame, in
+which `g` is bound by the time `f` is called -/
+example :
+    (applyLoop 10 σ₀ (.closure (.mk ⟨[], none⟩
+      [.mk "f" (.lambda (.mk ⟨[], none⟩ [] [.call (var "g") [] none]) none) none,
+       .mk "g" (.lambda (.mk ⟨[], none⟩ [] [lit 42]) none) none]
+      [.call (var "f") [] none]) 0) [] 0).1 = .ok (num 42) := by
+  with_unfolding_all rfl
+
+/-- a later definition sees an earlier one and the parameters:
+`((lambda (a) (define b (+ a 1)) (define c (* b 2)) c) 4)` = 10 -/
+example :
+    (applyLoop 10 σ₀ (.closure (.mk ⟨["a"], none⟩
+      [.mk "b" (.call (var "+") [var "a", lit 1] none) none,
+       .mk "c" (.call (var "*") [var "b", lit 2] none) none]
+      [var "c"]) 0) [num 4] 0).1 = .ok (num 10) := by
+  with_unfolding_all rfl
+
 /-! ## 6. MAIN: the model refines the reference semantics
 
 `Ref.eval` (`RuschmSpec/Ref.lean`) is the direct-style evaluator written from the R7RS rules: no
